@@ -107,3 +107,58 @@ M("c10-skip-existing-init", "C10", "C10.R3", CG + "package.py", "        init_mo
 M("c10-append-client", "C10", "C10.R3", CG + "package.py", "        client_file_path.write_text(code)", "        with client_file_path.open(\"a\") as fh:\n            fh.write(code)")
 M("c10-hash-in-name", "C10", "C10.R2", CG + "package.py", '        file_name = f"{module_name}.py"', '        file_name = f"{module_name}.py" if hash(module_name) else f"{module_name}.py"')
 M("c10-benign-sorted-twice", "C10", None, CG + "fragments.py", "for name in sorted(fragments_names):", "for name in sorted(sorted(fragments_names)):")
+
+# ----------------------------------------------------------------------- C01
+RTF = CG + "result_types.py"
+RFF = CG + "result_fields.py"
+M("c01-mixin-not-recorded", "C01", "C01.R1", RTF, "                    fragments.add(selection.name.value)", "                    pass")
+M("c01-unpacked-not-recorded", "C01", "C01.R1", RTF, "                    self._unpacked_fragments.add(selection.name.value)\n", "")
+M("c01-inline-fields-dropped", "C01", "C01.R1", RTF, "                        selection.selection_set, root_type_value\n                    )\n                    fields.extend(sub_fields)\n", "                        selection.selection_set, root_type_value\n                    )\n")
+M("c01-spread-fragments-dropped", "C01", "C01.R1", RTF, "                    fields.extend(sub_fields)\n                    fragments = fragments.union(sub_fragments)\n            elif isinstance(selection, InlineFragmentNode):", "                    fields.extend(sub_fields)\n            elif isinstance(selection, InlineFragmentNode):")
+M("c01-mixins-not-accumulated", "C01", "C01.R1", RTF, "        self._fragments_used_as_mixins = self._fragments_used_as_mixins.union(\n            set(fragments)\n        )\n        return fields, fragments", "        return fields, fragments")
+M("c01-no-typename", "C01", "C01.R2", RTF, "add_typename=field_context.abstract_type,", "add_typename=False,")
+M("c01-union-not-abstract", "C01", "C01.R2", RFF, "    context.abstract_type = True\n    sub_annotations", "    sub_annotations")
+M("c01-interface-abstract-late", "C01", "C01.R2", RFF, "    context.abstract_type = True\n    if inline_fragments or fragments_on_subtypes:", "    if inline_fragments or fragments_on_subtypes:\n        context.abstract_type = True")
+M("c01-typename-not-sent", "C01", "C01.R2", RTF, "            (\n                resolved_selection_set,\n                selection_set.selections,\n            ) = self._add_typename_field_to_selections(", "            (\n                resolved_selection_set,\n                _,\n            ) = self._add_typename_field_to_selections(")
+M("c01-typename-appended-to-fields-only", "C01", "C01.R2", RTF, "            return [typename_field, *resolved_fields], (\n                typename_field,\n                *selection_set.selections,\n            )", "            return [typename_field, *resolved_fields], selection_set.selections")
+M("c01-alias-from-python-name", "C01", "C01.R3", RTF, "keywords[ALIAS_KEYWORD] = generate_constant(field_schema_name)", "keywords[ALIAS_KEYWORD] = generate_constant(field_implementation.target.id)")
+M("c01-response-key-ignores-alias", "C01", "C01.R3", RTF, "        if field.alias:\n            return field.alias.value\n        return field.name.value", "        return field.name.value")
+M("c01-schema-lookup-by-alias", "C01", "C01.R3", RTF, "self._get_field_from_schema(type_name, field.name.value)", "self._get_field_from_schema(type_name, field_name)")
+M("c01-class-name-drift", "C01", "C01.R4", RFF, "            RelatedClassData(class_name=class_name + type_.name, type_name=type_.name)\n        )\n        fragments_types_names", "            RelatedClassData(class_name=class_name + type_.name + \"Base\", type_name=type_.name)\n        )\n        fragments_types_names")
+M("c01-object-not-registered", "C01", "C01.R4", RFF, "    name = class_name + type_.name if add_type_name else class_name\n    context.related_classes.append(\n        RelatedClassData(class_name=name, type_name=type_.name)\n    )\n    return generate_annotation_name('\"' + name + '\"', nullable)\n\n\ndef parse_enum_type", "    name = class_name + type_.name if add_type_name else class_name\n    return generate_annotation_name('\"' + name + '\"', nullable)\n\n\ndef parse_enum_type")
+M("c01-related-class-filtered", "C01", "C01.R5", RTF, "            for related_class_data in field_context.related_classes:\n                generated_classes.extend(", "            for related_class_data in field_context.related_classes:\n                if related_class_data.type_name.startswith(\"_\"):\n                    continue\n                generated_classes.extend(")
+M("c01-field-skipped", "C01", "C01.R5", RTF, "            class_def.body.append(field_implementation)\n\n            extra_classes.extend(", "            if not field.directives:\n                class_def.body.append(field_implementation)\n\n            extra_classes.extend(")
+M("c01-typename-values-lost", "C01", "C01.R5", RTF, "typename_values=typename_values[related_class_data.type_name],", "typename_values=None,")
+M("c01-discriminator-wire-name", "C01", "C01.R7", RTF, "keywords[DISCRIMINATOR_KEYWORD] = generate_constant(TYPENAME_ALIAS)", "keywords[DISCRIMINATOR_KEYWORD] = generate_constant(TYPENAME_FIELD_NAME)")
+M("c01-possible-types-dropped", "C01", "C01.R7", RTF, "        result[abstract_type.name].extend(types_without_class)\n", "")
+M("c01-typename-alias-private", "C01", "C01.R7", CG + "constants.py", 'TYPENAME_ALIAS = "typename__"', 'TYPENAME_ALIAS = "_typename"')
+M("c01-benign-rename", "C01", None, RTF, "sub_fields", "inner_fields", count=0)
+
+# ----------------------------------------------------------------------- C08
+FRF = CG + "fragments.py"
+M("c08-union-fragment-as-mixin", "C08", "C08.R1", RTF, "            GraphQLUnionType,\n        ):\n            return True", "            GraphQLUnionType,\n        ):\n            return False")
+M("c08-other-type-as-mixin", "C08", "C08.R1", RTF, "            and fragment_def.type_condition.name.value != root_type_def.name\n        ):\n            return True", "            and fragment_def.type_condition.name.value != root_type_def.name\n        ):\n            return False")
+M("c08-inline-fragment-as-mixin", "C08", "C08.R1", RTF, "            if isinstance(fragment_selection, InlineFragmentNode):\n                return True", "            if isinstance(fragment_selection, InlineFragmentNode):\n                return False")
+M("c08-always-unpack", "C08", "C08.R1", RTF, "                return True\n        return False\n\n    def _add_typename_field_to_selections", "                return True\n        return True\n\n    def _add_typename_field_to_selections")
+M("c08-bases-ignore-fragments", "C08", "C08.R1", RTF, "        if fragments:\n            class_bases = [str_to_pascal_case(f) for f in sorted(fragments)]", "        if False:\n            class_bases = [str_to_pascal_case(f) for f in sorted(fragments)]")
+M("c08-mixin-bases-dropped", "C08", "C08.R1", RTF, "        if extra_bases:\n            class_bases.extend(extra_bases)\n", "")
+M("c08-preorder", "C08", "C08.R3", FRF, "            visited.add(name)\n            for dep in sorted(dependencies_dict[name]):\n                visit(dep)\n            sorted_names.append(name)", "            visited.add(name)\n            sorted_names.append(name)\n            for dep in sorted(dependencies_dict[name]):\n                visit(dep)")
+M("c08-deps-not-visited", "C08", "C08.R3", FRF, "            for dep in sorted(dependencies_dict[name]):\n                visit(dep)\n", "")
+M("c08-deps-from-unpacked", "C08", "C08.R3", FRF, "dependencies_dict[name] = generator.get_fragments_used_as_mixins()", "dependencies_dict[name] = generator.get_unpacked_fragments()")
+M("c08-class-order-by-definition", "C08", "C08.R3", FRF, "            sorted_class_defs.extend(class_defs_dict[name])\n\n        return sorted_class_defs", "            pass\n        for name in class_defs_dict:\n            sorted_class_defs.extend(class_defs_dict[name])\n\n        return sorted_class_defs")
+M("c08-mixin-import-missing", "C08", "C08.R4", RTF, "            self._imports.append(\n                generate_import_from(\n                    names=[arguments[MIXIN_IMPORT_NAME]],\n                    from_=arguments[MIXIN_FROM_NAME],\n                )\n            )\n", "")
+M("c08-mixin-on-definition-ignored", "C08", "C08.R4", RTF, "                extra_bases=self._get_extra_bases_from_mixin_directives(\n                    self.operation_definition\n                ),", "                extra_bases=None,")
+M("c08-field-mixin-wrong-node", "C08", "C08.R4", RTF, "extra_bases=self._get_extra_bases_from_mixin_directives(field),", "extra_bases=self._get_extra_bases_from_mixin_directives(self.operation_definition),")
+M("c08-benign-rename", "C08", None, FRF, "sorted_names", "ordered", count=0)
+
+# ----------------------------------------------------------------------- C02 (result side)
+M("c02-mixin-kept-on-fragments", "C02", "C02.R2", RTF, "            def enter_fragment_definition(", "            def enter_fragment_definition_(")
+M("c02-mixin-filter-inverted", "C02", "C02.R2", RTF, "d for d in node.directives or [] if d.name.value != MIXIN_NAME\n                )\n                return node\n\n            @staticmethod", "d for d in node.directives or [] if d.name.value == MIXIN_NAME\n                )\n                return node\n\n            @staticmethod")
+M("c02-no-deepcopy", "C02", "C02.R2", RTF, "copied_node = deepcopy(node)", "copied_node = node")
+M("c02-fragment-printed-raw", "C02", "C02.R2", RTF, "                operation_str += \"\\n\\n\" + print_ast(\n                    self._get_node_without_mixin_directive(\n                        self.fragments_definitions[used_fragment]\n                    )\n                )", "                operation_str += \"\\n\\n\" + print_ast(\n                    self.fragments_definitions[used_fragment]\n                )")
+M("c02-directives-stripped", "C02", "C02.R3", RTF, "            field_name = self._get_field_name(field)\n", "            field_name = self._get_field_name(field)\n            field.directives = ()\n")
+M("c02-alias-cleared", "C02", "C02.R3", CG + "result_fields.py", "    default_value: Optional[ast.Constant] = None\n    context = FieldContext(", "    default_value: Optional[ast.Constant] = None\n    field.alias = None\n    context = FieldContext(")
+M("c02-closure-not-recursive", "C02", "C02.R4", RTF, "                names.add(name)\n                names = names.union(\n                    self._get_fragments_names(\n                        self.fragments_definitions[name].selection_set\n                    )\n                )", "                names.add(name)")
+M("c02-closure-skips-inline", "C02", "C02.R4", RTF, "isinstance(node, (FieldNode, InlineFragmentNode)) and node.selection_set", "isinstance(node, FieldNode) and node.selection_set")
+M("c02-unpacked-definitions-missing", "C02", "C02.R4", RTF, "        return fragments_names.union(self._unpacked_fragments)", "        return fragments_names")
+M("c02-fragments-only-with-mixins", "C02", "C02.R4", RTF, "        if self._fragments_used_as_mixins or self._unpacked_fragments:", "        if self._fragments_used_as_mixins:")
